@@ -432,6 +432,10 @@ func runC01(e *env) {
 			c.text = tree.src(st, 0)
 		}
 		st.attr = false
+		if ctx.name == "foreach" && strings.HasPrefix(c.text, "-") {
+			// documented exclusion (DESIGN C01): after "in" -- lexed as an identifier -- a leading minus is read as the binary operator
+			c.text = "(" + c.text + ")"
+		}
 		c.src = xBuildSource(ctx, c.text)
 		c.dataMap = xDataFor(c.src, d)
 		cases = append(cases, c)
